@@ -10,7 +10,7 @@ CONSTANTS
   MaxCount = 1
   MaxHttp = 0
   MaxTcp = 0
-  Ticks = TRUE
+  Ticks = FALSE
   EnvStateModules <- McOneMod
   EnvMsgModules <- McNone
   IoFaults = TRUE
